@@ -30,7 +30,8 @@ EXTRA = {}
 
 NAMES = ['a', 'b', 'c']
 INF = float('inf')
-VALUES = [None, None, 0, 1, 2, 3, -1, 1.0, 2.5, -0.25, 'x', 'y', 'xy', 'yx', 'abc', '', 'x1', 'Xy', 'aXc']
+VALUES = [None, None, 0, 1, 2, 3, -1, 1.0, 2.5, -0.25, 'x', 'y', 'xy', 'yx', 'abc', '', 'x1', 'Xy', 'aXc',
+          2 ** 53, 2 ** 53 + 1, float(2 ** 53)]      # neighbouring ints beyond float precision: 2**53 + 1 != float(2**53) == 2**53
 PATTERNS = ['x', 'y', 'xy', 'b', '1', '', 'zz', 'abc', '^x', 'y$', '^xy$', 'a.c', '.', '^.$', 'x.', '^', '$', '..', '^y', 'x$']
 
 
@@ -526,6 +527,33 @@ def laws(rng, tier, ctx):
                     yield Finding('violation', fcase, 'find_%s raised although exactly one value (%r) is selected' % (c, distinct[0]))
             except Exception as e:
                 yield Finding('violation', fcase, 'find_%s raised %s' % (c, type(e).__name__))
+        # one_or_none (listed in the property's observe_at): None when inc selects no row, the row itself when it selects exactly one,
+        # ValueError when it selects several; with find = <col> that row's cell
+        if p is None or dc is None:
+            count += 1
+            ocase = dict(tag='law-one-or-none:' + tag, lines=['(flt inc %s %s)' % (tw, tail)])
+            sel_rows = [r for r, w in zip(all_rows, want) if w]
+            fc = rng.choice(sorted(t)) if t and rng.random() < 0.4 else None
+            try:
+                args = ([pred_py(p)] if p else []) + ([{k: cond_py(c) for k, c in dc.items()}] if dc is not None else [])
+                got = with_timeout(lambda: build().one_or_none(*args, find=fc, **{k: cond_py(c) for k, c in kw.items()}), 5)
+                if len(sel_rows) > 1:
+                    yield Finding('violation', ocase, 'one_or_none returned %r although %d rows are selected' % (got, len(sel_rows)))
+                elif len(sel_rows) == 0:
+                    if got is not None:
+                        yield Finding('violation', ocase, 'one_or_none returned %r although no row is selected' % (got,))
+                elif fc is not None:
+                    if not same_cell(got, sel_rows[0][sorted(t).index(fc)]):
+                        yield Finding('violation', ocase, 'one_or_none(find=%r) returned %r, the selected row is %r' % (fc, got, sel_rows[0]))
+                elif not isinstance(got, dict) or sorted(got.keys()) != sorted(t) or not same_rows([tuple(got[k] for k in sorted(t))], [sel_rows[0]]):
+                    yield Finding('violation', ocase, 'one_or_none returned %r, the selected row is %r' % (got, sel_rows[0]))
+            except Timeout:
+                yield Finding('violation', ocase, 'one_or_none does not return')
+            except ValueError:
+                if len(sel_rows) <= 1:
+                    yield Finding('violation', ocase, 'one_or_none raised ValueError although %d row(s) are selected' % len(sel_rows))
+            except Exception as e:
+                yield Finding('violation', ocase, 'one_or_none raised %s' % type(e).__name__)
         # the answer must not depend on WHICH OBJECT holds a NaN (np.nan is one shared object, float('nan') a new one
         # each time): the statement speaks of cells and values
         if any(is_nan(v) for col in t.values() for v in col) or any(
